@@ -155,8 +155,12 @@ def random_history(rng, kind, nvals, nops, zero_tok=0, two=True, maxlen=40, bad=
         elif r < 0.77:
             L.append("mem %d %d" % (o, v))
         elif r < 0.81:
-            L.append("sort %d" % o)
-            if kd != "List": q.sort()
+            if rng.random() < 0.35:
+                L.append("sortby %d gt" % o)                 # sort_by with the opposite comparison: descending
+                if kd != "List": q.sort(reverse=True)
+            else:
+                L.append("sort %d" % o)
+                if kd != "List": q.sort()
         elif r < 0.86:
             if kd == "Tuple":
                 m = rng.choice([0, max(n - 1, 0), n // 2, n, n + 2])
